@@ -55,12 +55,17 @@ def r1_fx(ck, cx):
     sc = cx.idx.cls('pymodbus.datastore.context.ModbusSlaveContext')
     init = cx.method(sc, '__init__')
     keys = {}
-    for n in ast.walk(init.node):
-        if isinstance(n, ast.Assign) and isinstance(n.targets[0], ast.Subscript) and U(n.targets[0].value) == 'self.store':
-            k = cx.ce.try_ev(n.targets[0].slice, sc.mod, sc)
-            v = n.value
-            kw = v.args[0].value if isinstance(v, ast.Call) and callee_name(v) == 'get' and v.args and isinstance(v.args[0], ast.Constant) else None
-            keys[k] = kw
+    for p in cx.enum(init, sc, max_depth=0):
+        annotate(p, heap=False)
+        for ev in p.ev:
+            if ev.kind == 'assign' and isinstance(ev.a, ast.Subscript) and U(ev.a.value) == 'self.store':
+                tgt = getattr(ev, '_subt', None) or ev.a
+                k = cx.ce.try_ev(tgt.slice, sc.mod, sc)
+                v = getattr(ev, '_sub', None) or ev.node.value
+                kw = None
+                if isinstance(v, ast.Call) and callee_name(v) in ('get', 'pop') and v.args:
+                    kw = cx.ce.try_ev(v.args[0], sc.mod, sc)
+                keys[k] = kw
     want = {'d': 'di', 'c': 'co', 'i': 'ir', 'h': 'hr'}
     for k, kw in sorted(want.items()):
         ck.ob('R1', init.qn, "store[%r] is the block passed as %r" % (k, kw), keys.get(k) == kw,
